@@ -213,8 +213,111 @@ let cmd_tokmap () =
     print_endline (String.concat " " (List.map (fun n ->
       String.concat "" (List.map (fun z -> hex_encode (encode_rune z)) n)) tm)))
 
+(* ---------------------------------------------------------------- lexer vs lexical rules *)
+let nat_of_int_tr n = let rec go acc n = if n = 0 then acc else go (S acc) (n-1) in go O n
+let ltoks = ref []
+let lnext () = match !ltoks with [] -> failwith "eof" | t :: r -> ltoks := r; t
+let lnint () = int_of_string (lnext ())
+let rec ltimes n f = if n = 0 then [] else let x = f () in x :: ltimes (n-1) f
+let rec ppat () = (match lnext () with "P" -> () | s -> failwith ("P expected, got " ^ s)); let n = lnint () in ltimes n palt
+and palt () = (match lnext () with "A" -> () | s -> failwith ("A expected " ^ s)); let n = lnint () in ltimes n pterm
+and pterm () = match lnext () with
+  | "c" -> Chr (z_of_int (lnint ()))
+  | "r" -> let lo = lnint () in let hi = lnint () in Rng (z_of_int lo, z_of_int hi)
+  | "d" -> Dot
+  | "f" -> Ref (nat_of_int_tr (lnint ()))
+  | "o" -> Opt (ppat ())
+  | "s" -> Rep (ppat ())
+  | "g" -> Grp (ppat ())
+  | s -> failwith ("term expected " ^ s)
+
+(* reads the verifdump lexdump format: grammar, then the item-set DFA *)
+let read_lexdump file =
+  let ic = open_in file in
+  let n = in_channel_length ic in
+  let s = really_input_string ic n in
+  close_in ic;
+  ltoks := List.filter (fun x -> x <> "") (String.split_on_char ' ' (String.concat " " (String.split_on_char '\n' s)));
+  let nreg = lnint () in
+  let regdefs = ltimes nreg ppat in
+  let ntok = lnint () in
+  let tks = ltimes ntok (fun () ->
+    let k = lnext () in
+    let kind = (match k with "T" -> let ty = lnint () in let sl = lnint () in Tok (z_of_int ty, sl = 1) | "I" -> Ign | s -> failwith ("kind " ^ s)) in
+    let p = ppat () in (kind, p)) in
+  let g = { regdefs = regdefs; toks = tks } in
+  let nst = lnint () in
+  let rows_acts = ltimes nst (fun () ->
+    let acc = lnint () in let dflt = lnint () in let nc = lnint () in
+    let cs = ltimes nc (fun () -> let lo = lnint () in let hi = lnint () in let nx = lnint () in ((z_of_int lo, z_of_int hi), z_of_int nx)) in
+    ({ cases = cs; dflt = z_of_int dflt }, z_of_int acc)) in
+  (g, List.map fst rows_acts, List.map snd rows_acts)
+
+(* bisim <lexdump> <fuel> [<emitted table file>]: verified checker + diagnostic twin; the DFA is the emitted one when given *)
+let read_table_file file =
+  let ic = open_in file in
+  let n = int_of_string (String.trim (input_line ic)) in
+  let rows = ref [] and acts = ref [] in
+  for _ = 1 to n do
+    match List.map int_of_string (words (input_line ic)) with
+    | acc :: dflt :: k :: rest ->
+      let rec triples k l = if k = 0 then [] else match l with
+        | lo :: hi :: nx :: t -> ((z_of_int lo, z_of_int hi), z_of_int nx) :: triples (k - 1) t | _ -> failwith "bad row" in
+      rows := { cases = triples k rest; dflt = z_of_int dflt } :: !rows; acts := z_of_int acc :: !acts
+    | _ -> failwith "bad row"
+  done;
+  close_in ic; (List.rev !rows, List.rev !acts)
+
+let cmd_bisim args =
+  match args with
+  | file :: fuel :: rest ->
+    let (g, rows0, acts0) = read_lexdump file in
+    let (rows, acts) = match rest with t :: _ -> read_table_file t | [] -> (rows0, acts0) in
+    let same = (rows = rows0 && acts = acts0) in
+    let path p = String.concat "," (List.rev_map (fun z -> string_of_int (int_of_z z)) p) in
+    let f = nat_of_int_tr (int_of_string fuel) in
+    (match bisim_diag rows acts g f with
+     | Closed n -> Printf.printf "CLOSED %d" (int_of_nat n)
+     | NoFuel n -> Printf.printf "NOFUEL %d" (int_of_nat n)
+     | BadGrammar -> Printf.printf "BADGRAMMAR"
+     | AcceptMismatch (p, q, a, b) -> Printf.printf "ACCEPT path=[%s] gocc_state=%d gocc_acc=%d model_acc=%d" (path p) (int_of_z q) (int_of_z a) (int_of_z b)
+     | LiveMismatch (p, q, n, l) -> Printf.printf "LIVE path=[%s] gocc_state=%d gocc_next=%d model_live=%b" (path p) (int_of_z q) (int_of_z n) l);
+    Printf.printf " check=%b emitted_equals_itemsets=%b\n" (bisim_check rows acts g f) same
+  | _ -> failwith "bisim"
+
+(* dlex <lexdump>: the DEFINITIONAL tokenizer (derivatives of the lexical rules) on the lexer-driver case format *)
+let cmd_dlex file =
+  let (g, _, _) = read_lexdump file in
+  iter_lines (fun line ->
+    let buf = Buffer.create 256 in
+    let src = ref [] and l = ref (init []) in
+    let emit t =
+      Buffer.add_string buf (Printf.sprintf "%d:%s:%d:%d:%d " (int_of_z t.ty) (hex_encode t.lit)
+        (int_of_z t.toff) (int_of_z t.tline) (int_of_z t.tcol)) in
+    let scans k =
+      let after = ref (-1) and i = ref 0 in
+      while !i < k && !after <> 0 do
+        (match dscan_n g (S O) !l with
+         | Some ([t], l') ->
+           l := l'; emit t;
+           if !after > 0 then decr after else if int_of_z t.ty = 1 then after := 2
+         | _ -> Buffer.add_string buf "BAD "; after := 0);
+        incr i
+      done in
+    List.iter (fun op ->
+      (match op.[0] with
+       | 'N' | 'E' -> src := hex_decode (String.sub op 1 (String.length op - 1)); l := init !src
+       | 'S' -> scans (int_of_string (String.sub op 1 (String.length op - 1)))
+       | 'A' -> scans (List.length !src + 6)
+       | 'R' -> l := reset !src !l
+       | _ -> ());
+      Buffer.add_string buf "| ") (words line);
+    print_endline (Buffer.contents buf))
+
 let () =
   match Array.to_list Sys.argv with
+  | _ :: "bisim" :: args -> cmd_bisim args
+  | _ :: "dlex" :: file :: _ -> cmd_dlex file
   | _ :: "tokmap" :: _ -> cmd_tokmap ()
   | _ :: "resolve" :: _ -> cmd_resolve ()
   | _ :: "litconv" :: _ -> cmd_litconv ()
